@@ -237,6 +237,66 @@ static void recovery(const struct rimpl *im, int vects, int len)
 	g_reset();
 }
 
+/* long stripes: loop counters and offsets beyond 64 KiB and 1 MiB, 5 vectors, xorshift data, reference computed on the fly */
+static void gen_big(const struct rimpl *im, int len)
+{
+	char key[256];
+	int vects = 5, npar = im->op == R_PQ_GEN ? 2 : 1, nsrc = vects - npar;
+	void **arr = g_alloc(vects * sizeof(void *), G_END);
+	uint8_t *src[8];
+	for (int i = 0; i < nsrc; i++) {
+		src[i] = g_alloc_end_aligned(len, im->align);
+		fill_xorshift(src[i], len, 500 + i);
+		arr[i] = src[i];
+	}
+	uint8_t *P = g_alloc_end_aligned(len, im->align), *Q = npar == 2 ? g_alloc_end_aligned(len, im->align) : NULL;
+	memset(P, 0xAA, len);
+	arr[nsrc] = P;
+	if (Q) {
+		memset(Q, 0x55, len);
+		arr[nsrc + 1] = Q;
+	}
+	int r = -999;
+	v_pcall_mode = 2;
+	if (V_TRY()) {
+		r = (int)PCALL(im->f, vects, len, arr);
+		V_END();
+	} else {
+		snprintf(key, sizeof key, "%s fault vects=5 len=%d big", im->name, len);
+		v_violation(key, "%s", v_fault_desc());
+		nfail++;
+		g_reset();
+		return;
+	}
+	v_eval();
+	int bad = r != 0;
+	for (int j = 0; j < len && !bad; j++) {
+		uint8_t pp = 0, qq = 0;
+		for (int i = nsrc - 1; i >= 0; i--) {
+			pp ^= src[i][j];
+			qq = rgf_mul_slow(qq, 2) ^ src[i][j];
+		}
+		if (P[j] != pp || (Q && Q[j] != qq)) {
+			snprintf(key, sizeof key, "%s wrong vects=5 len=%d big", im->name, len);
+			v_violation(key, "byte %d: P %02x (expected %02x) Q %02x (expected %02x)", j, P[j], pp, Q ? Q[j] : 0, qq);
+			nfail++;
+			bad = 2;
+		}
+	}
+	if (bad == 1) {
+		snprintf(key, sizeof key, "%s return vects=5 len=%d big", im->name, len);
+		v_violation(key, "returned %d", r);
+		nfail++;
+	}
+	if (g_check()) {
+		snprintf(key, sizeof key, "%s wrote-outside vects=5 len=%d big", im->name, len);
+		v_violation(key, "%s", g_last_damage());
+		nfail++;
+	}
+	g_reset();
+	v_count("big_length_cases", 1);
+}
+
 int main(int argc, char **argv)
 {
 	v_init(argc, argv, "C08");
@@ -291,6 +351,13 @@ int main(int argc, char **argv)
 					}
 					v_nontrivial(v_mix(ii, vects * 10000 + len));
 				}
+			/* long stripes */
+			{
+				static const int bigl[] = { 65536 + 64, (1 << 20) + 96, (1 << 24) + 32 };
+				for (int bi = 0; bi < (v_thorough ? 3 : 2); bi++)
+					if (v_mine(unit++) && im->level < 0)
+						gen_big(im, bigl[bi]);
+			}
 			/* many vectors */
 			for (unsigned vi = 0; vi < sizeof vbig / sizeof vbig[0]; vi++) {
 				if (!v_mine(unit++))
